@@ -77,14 +77,49 @@ Proof.
   - unfold suggest. destruct tip; split; reflexivity.
 Qed.
 
-(* unknown (lookup answers NotFound) and already-mined targets are refused with the NotFound error *)
+(* unknown (lookup answers NotFound) and already-mined targets are refused with the NotFound error
+   (an error return, not a crash) *)
 Lemma refuse_unknown_or_mined c l tip price s b :
   l = LErr true \/ (exists t, l = LFound t false) ->
   submitted (cancel c l tip price s b) = None /\ ret_ok (cancel c l tip price s b) = false /\
-  ret_notfound (cancel c l tip price s b) = true.
+  ret_notfound (cancel c l tip price s b) = true /\ cancel c l tip price s b <> CPanic.
 Proof.
-  intros [->|[t ->]]; unfold cancel; [repeat split|]. destruct t; repeat split.
+  intros [->|[t ->]]; unfold cancel; [repeat split; discriminate|]. destruct t; repeat split; discriminate.
 Qed.
+
+(* the only crash: a lookup answering "no error, pending, nil transaction" *)
+Lemma panic_iff c l tip price s b :
+  cancel c l tip price s b = CPanic <-> l = LFound None true.
+Proof.
+  split.
+  - unfold cancel. destruct l as [nf|[o|] [|]]; try discriminate; [|reflexivity].
+    destruct (suggest (Some (o_price o)) tip price) as [[f t]|]; [|discriminate].
+    destruct s; discriminate.
+  - intros ->. reflexivity.
+Qed.
+
+(* chain id: the replacement carries the client's chain id.  For an original signed for chain [oc]: equal
+   to the original's exactly when the original was signed for the client's chain (every transaction this
+   client sends is: newTx and CancelTx both put c.chainID); for a foreign-chain original the replacement
+   does NOT reuse the original's chain id. *)
+Lemma chain_id c l tip price s b t acc (oc : Z) :
+  cancel c l tip price s b = CSubmit t acc ->
+  x_chain t = chain c /\ (oc = chain c -> x_chain t = oc) /\ (oc <> chain c -> x_chain t <> oc).
+Proof.
+  intros H. destruct (shape _ _ _ _ _ _ _ _ H) as (_ & _ & _ & _ & _ & _ & _ & Hc & _).
+  rewrite Hc. repeat split; congruence.
+Qed.
+
+(* target identity: CancelTx has no test that the looked-up transaction was sent by this client or from
+   its account: ANY pending transaction the node returns (any nonce, any sender) gets a replacement with
+   that nonce, signed by this client (it replaces the target only if the target is the owner's). *)
+Lemma any_pending_target c o sug price b :
+  exists t, cancel c (LFound (Some o) true) (TipOk sug) price true b = CSubmit t b /\ x_nonce t = o_nonce o.
+Proof. unfold cancel, suggest. cbn [negb]. eexists. split; reflexivity. Qed.
+
+(* CancelTx runs under the same client mutex as Send (regenerated from evmclient.go on every run) *)
+Lemma cancel_serialised_now : c10_cancel_locks = true /\ c10_cancel_unlocks = true.
+Proof. split; reflexivity. Qed.
 
 (* an error is returned unless the node took the replacement *)
 Lemma ok_only_if_accepted c l tip price s b :
